@@ -33,6 +33,14 @@ theorem c14_fields_tsci (a b : UInt8) (c0 n : Nat) : C14.tsciAccOk a b c0 (tsciA
   | zero => rfl
   | succ n ih => simp only [tsciAcc, C14.tsciAccOk, tsciView_word, beq_self_eq_true, ih, Bool.and_self]
 
+/-- c14_fields: every accessor of the 16-bit payload header, the 8-bit FU header, the 16-bit PACI
+    word and the 24-bit TSCI is the corresponding RFC 7798 field — for all values, no enumeration -/
+theorem c14_fields :
+    (∀ h : UInt16, C14.hdrAccOk h (hdrAcc h) = true) ∧ (∀ b : UInt8, C14.fuAccOk b (fuAcc b) = true) ∧
+    (∀ w : UInt16, C14.paciAccOk w (paciAcc w) = true) ∧
+    (∀ a b c : UInt8, tsciView (tsciWord a b c) = Tsci.ofBytes a b c) :=
+  ⟨c14_fields_hdr, c14_fields_fu, c14_fields_paci, tsciView_word⟩
+
 /-- the same, spelled out: the accessors of the word `TSCI()` builds from PHES octets `a b c` -/
 theorem c14_fields_tsci_spec (a b c : UInt8) :
     tsciTL0 (tsciWord a b c) = a ∧ tsciIrap (tsciWord a b c) = b ∧
